@@ -331,7 +331,36 @@ func (c *Ctx) merge(es []edge) (*State, string) {
 				}
 				out.ptrs[a] = Val{T: first.T, Alts: as}
 			case anyPtr:
-				out.poison[a] = true
+				// some edges hold an interior pointer, others a plain reference to a heap
+				// object: a reference r is the path "heap object r", so alternatives work
+				var as []PAlt
+				okAll := true
+				pt, isPtr := a.Type().(*types.Pointer).Elem().Underlying().(*types.Pointer)
+				for _, e := range es {
+					if q, ok2 := e.st.ptrs[a]; ok2 {
+						if len(q.Alts) > 0 {
+							for _, qa := range q.Alts {
+								as = append(as, PAlt{and(e.cond, qa.Cond), qa.P})
+							}
+						} else if q.P != nil {
+							as = append(as, PAlt{e.cond, q.P})
+						} else {
+							okAll = false
+						}
+						continue
+					}
+					t, ok3 := e.st.cells[a]
+					if !ok3 || !isPtr {
+						okAll = false
+						continue
+					}
+					as = append(as, PAlt{e.cond, &Path{Kind: rootHeap, T: pt.Elem(), Ref: t}})
+				}
+				if okAll && len(as) > 0 {
+					out.ptrs[a] = Val{T: a.Type().(*types.Pointer).Elem(), Alts: as}
+				} else {
+					out.poison[a] = true
+				}
 			}
 		}
 		for _, e := range es {
@@ -781,6 +810,9 @@ func (f *Frame) set(v ssa.Value, x Val) {
 func (f *Frame) ptrPath(v Val, pos token.Pos, what string) *Path {
 	if v.P != nil {
 		return v.P
+	}
+	if len(v.Alts) > 0 || v.S == "" {
+		panic(unsupported("dereference (" + what + ") of a pointer with several possible shapes"))
 	}
 	pt, ok := v.T.Underlying().(*types.Pointer)
 	if !ok {
